@@ -110,4 +110,73 @@ theorem globalEventsFromChartLines_tie (ext : Ext) (c lines bpm : Val) :
   refine Returns.ret_of _ ?_
   ev_simp
 
+/-! ### the three `_parse_data_from_chart_lines`: the dispatcher is given these three types *in this order* (the order in which a line is
+    offered to them), and the triple handed back is read out of its map under these three keys in this order -/
+
+def PDL : String := "chartparse.track.parse_data_from_chart_lines"
+
+def parseDataV3 (ext : Ext) (lines t1 t2 t3 r1 r2 r3 : Val) : M Val :=
+  ext PDL [.tup (.cons t1 (.cons t2 (.cons t3 .nil))), lines] >>= fun pd =>
+  ext ".__getitem__" [pd, r1] >>= fun a =>
+  ext ".__getitem__" [pd, r2] >>= fun b =>
+  ext ".__getitem__" [pd, r3] >>= fun c3 =>
+  .ok (.tup (.cons a (.cons b (.cons c3 .nil))))
+
+theorem instrumentParseData_tie (ext : Ext) (c lines : Val) :
+    Returns ext Gen.Imp.instrumentParseData (initEnv [("cls", c), ("lines", lines)] Gen.Imp.instrumentParseDataLocals)
+      (parseDataV3 ext lines (cls "NoteEvent.ParsedData") (cls "StarPowerEvent.ParsedData") (cls "TrackEvent.ParsedData")
+        (cls "NoteEvent.ParsedData") (cls "StarPowerEvent.ParsedData") (cls "TrackEvent.ParsedData")) := by
+  have h0 : initEnv [("cls", c), ("lines", lines)] Gen.Imp.instrumentParseDataLocals = [("cls", some c), ("lines", some lines), ("parsed_data", none)] := by
+    simp [initEnv, Gen.Imp.instrumentParseDataLocals]
+  rw [h0]
+  unfold Gen.Imp.instrumentParseData parseDataV3
+  simp only [cls, String.reduceAppend]
+  refine Returns.assign_bind _ ?_ ?_
+  · ev_simp; rfl
+  intro pd _
+  refine Returns.ret_of _ ?_
+  ev_simp
+  generalize ext ".__getitem__" [pd, Val.obj "type:NoteEvent.ParsedData" Val.fnil] = r1
+  generalize ext ".__getitem__" [pd, Val.obj "type:StarPowerEvent.ParsedData" Val.fnil] = r2
+  generalize ext ".__getitem__" [pd, Val.obj "type:TrackEvent.ParsedData" Val.fnil] = r3
+  cases r1 <;> cases r2 <;> cases r3 <;> simp [bind, Except.bind]
+
+theorem syncParseData_tie (ext : Ext) (c lines : Val) :
+    Returns ext Gen.Imp.syncParseData (initEnv [("cls", c), ("lines", lines)] Gen.Imp.syncParseDataLocals)
+      (parseDataV3 ext lines (cls "BPMEvent.ParsedData") (cls "TimeSignatureEvent.ParsedData") (cls "AnchorEvent.ParsedData")
+        (cls "TimeSignatureEvent.ParsedData") (cls "BPMEvent.ParsedData") (cls "AnchorEvent.ParsedData")) := by
+  have h0 : initEnv [("cls", c), ("lines", lines)] Gen.Imp.syncParseDataLocals = [("cls", some c), ("lines", some lines), ("parsed_data", none)] := by
+    simp [initEnv, Gen.Imp.syncParseDataLocals]
+  rw [h0]
+  unfold Gen.Imp.syncParseData parseDataV3
+  simp only [cls, String.reduceAppend]
+  refine Returns.assign_bind _ ?_ ?_
+  · ev_simp; rfl
+  intro pd _
+  refine Returns.ret_of _ ?_
+  ev_simp
+  generalize ext ".__getitem__" [pd, Val.obj "type:TimeSignatureEvent.ParsedData" Val.fnil] = r1
+  generalize ext ".__getitem__" [pd, Val.obj "type:BPMEvent.ParsedData" Val.fnil] = r2
+  generalize ext ".__getitem__" [pd, Val.obj "type:AnchorEvent.ParsedData" Val.fnil] = r3
+  cases r1 <;> cases r2 <;> cases r3 <;> simp [bind, Except.bind]
+
+theorem globalEventsParseData_tie (ext : Ext) (c lines : Val) :
+    Returns ext Gen.Imp.globalEventsParseData (initEnv [("cls", c), ("lines", lines)] Gen.Imp.globalEventsParseDataLocals)
+      (parseDataV3 ext lines (cls "LyricEvent.ParsedData") (cls "SectionEvent.ParsedData") (cls "TextEvent.ParsedData")
+        (cls "TextEvent.ParsedData") (cls "SectionEvent.ParsedData") (cls "LyricEvent.ParsedData")) := by
+  have h0 : initEnv [("cls", c), ("lines", lines)] Gen.Imp.globalEventsParseDataLocals = [("cls", some c), ("lines", some lines), ("parsed_data", none)] := by
+    simp [initEnv, Gen.Imp.globalEventsParseDataLocals]
+  rw [h0]
+  unfold Gen.Imp.globalEventsParseData parseDataV3
+  simp only [cls, String.reduceAppend]
+  refine Returns.assign_bind _ ?_ ?_
+  · ev_simp; rfl
+  intro pd _
+  refine Returns.ret_of _ ?_
+  ev_simp
+  generalize ext ".__getitem__" [pd, Val.obj "type:TextEvent.ParsedData" Val.fnil] = r1
+  generalize ext ".__getitem__" [pd, Val.obj "type:SectionEvent.ParsedData" Val.fnil] = r2
+  generalize ext ".__getitem__" [pd, Val.obj "type:LyricEvent.ParsedData" Val.fnil] = r3
+  cases r1 <;> cases r2 <;> cases r3 <;> simp [bind, Except.bind]
+
 end Chartparse.Tie
